@@ -197,8 +197,20 @@ def nona (edge : Option Int) (f : Frame) : Res Frame :=
       .ok (f.gather ((List.range f.nrows).filter fun i => decide (f.idx.getD i 0 ≥ lb)))
     else .error .other   -- the code falls off the end and returns None; not generated
 
-/-- arrays: `edge` is ignored (`not is_pd(df)`) -/
+/-- arrays, `edge = None`: `df[~mask]` -/
 def nonaArr (cols : List Col) : List Col :=
   ((ofArr cols).gather ((List.range (ofArr cols).nrows).filter (ofArr cols).rowValid)).vals
+
+/-- arrays with `edge` (repo fix C12-E1; before it `not is_pd(df)` made an array ignore `edge`): cut by POSITION - `edge = 1`
+keeps everything up to the last row holding a value, `edge = -1` everything from the first one; no such row: nothing -/
+def nonaArrE (edge : Option Int) (cols : List Col) : Res (List Col) :=
+  let valid := (List.range (ofArr cols).nrows).filter (ofArr cols).rowValid
+  match edge with
+  | Option.none => .ok (nonaArr cols)
+  | some e =>
+    if valid.isEmpty then .ok (nonaArr cols)
+    else if e == 1 then .ok (cols.map fun c => c.take (valid.getLastD 0 + 1))
+    else if e == -1 then .ok (cols.map fun c => c.drop (valid.headD 0))
+    else .error .other
 
 end Pyg.Fill
